@@ -407,4 +407,137 @@ theorem rebuild_docs : ∀ (vs : List JV), (∀ v ∈ vs, nodup v) → ∀ (st :
     rw [rebuild_doc v (hvs v (by simp)) st hst, rebuild_docs vs (fun w hw => hvs w (by simp [hw])) _ (Or.inl rfl)]
     simp
 
+/-! ### canonical (well-formed) documents are their own canonical form and are duplicate-free -/
+
+theorem cmp_cons_lt (x y : UInt8) (xs ys : Bytes) :
+    Bytes.cmp (x :: xs) (y :: ys) = .lt ↔ (x < y ∨ (x = y ∧ Bytes.cmp xs ys = .lt)) := by
+  simp only [Bytes.cmp]
+  constructor
+  · intro h
+    split at h
+    · rename_i h1; exact Or.inl h1
+    · split at h
+      · cases h
+      · rename_i h1 h2
+        exact Or.inr ⟨UInt8.le_antisymm (UInt8.not_lt.mp h2) (UInt8.not_lt.mp h1), h⟩
+  · rintro (h | ⟨rfl, h⟩)
+    · simp [h]
+    · simp [UInt8.lt_irrefl, h]
+
+theorem cmp_lt_trans : ∀ (a b c : Bytes), Bytes.cmp a b = .lt → Bytes.cmp b c = .lt → Bytes.cmp a c = .lt
+  | [], [], _, h, _ => by simp [Bytes.cmp] at h
+  | [], _ :: _, [], _, h => by simp [Bytes.cmp] at h
+  | [], _ :: _, _ :: _, _, _ => by simp [Bytes.cmp]
+  | _ :: _, [], _, h, _ => by simp [Bytes.cmp] at h
+  | _ :: _, _ :: _, [], _, h => by simp [Bytes.cmp] at h
+  | x :: xs, y :: ys, z :: zs, h1, h2 => by
+    rw [cmp_cons_lt] at h1 h2 ⊢
+    rcases h1 with h1 | ⟨rfl, h1⟩
+    · rcases h2 with h2 | ⟨rfl, _⟩
+      · exact Or.inl (UInt8.lt_trans h1 h2)
+      · exact Or.inl h1
+    · rcases h2 with h2 | ⟨rfl, h2⟩
+      · exact Or.inl h2
+      · exact Or.inr ⟨rfl, cmp_lt_trans xs ys zs h1 h2⟩
+
+theorem cmp_gt_of_lt : ∀ (a b : Bytes), Bytes.cmp a b = .lt → Bytes.cmp b a = .gt
+  | [], [], h => by simp [Bytes.cmp] at h
+  | [], _ :: _, _ => by simp [Bytes.cmp]
+  | _ :: _, [], h => by simp [Bytes.cmp] at h
+  | x :: xs, y :: ys, h => by
+    rw [cmp_cons_lt] at h
+    rcases h with h | ⟨rfl, h⟩
+    · have : ¬ y < x := UInt8.not_lt.mpr (UInt8.le_of_lt h)
+      simp [Bytes.cmp, this, h]
+    · simp [Bytes.cmp, UInt8.lt_irrefl, cmp_gt_of_lt xs ys h]
+
+theorem kvInsert_append (k : Bytes) (y : JV) : ∀ (acc : List (Bytes × JV)), (∀ p ∈ acc, Bytes.cmp p.1 k = .lt) →
+    kvInsert k y acc = acc ++ [(k, y)]
+  | [], _ => rfl
+  | (k', v') :: rest, h => by
+    have h1 : Bytes.cmp k k' = .gt := cmp_gt_of_lt _ _ (h (k', v') (by simp))
+    simp [kvInsert, h1, kvInsert_append k y rest (fun p hp => h p (by simp [hp]))]
+
+theorem sorted_head_lt (k : Bytes) (x : JV) : ∀ (rest : List (Bytes × JV)), kvSorted ((k, x) :: rest) = true →
+    ∀ q ∈ rest, Bytes.cmp k q.1 = .lt
+  | [], _, q, hq => by cases hq
+  | (k', v') :: rest, h, q, hq => by
+    simp only [kvSorted, Bool.and_eq_true, Bytes.lt, beq_iff_eq] at h
+    rcases List.mem_cons.mp hq with rfl | hq
+    · exact h.1
+    · exact cmp_lt_trans _ _ _ h.1 (sorted_head_lt k' v' rest h.2 q hq)
+
+theorem sorted_tail (k : Bytes) (x : JV) (rest : List (Bytes × JV)) (h : kvSorted ((k, x) :: rest) = true) :
+    kvSorted rest = true := by
+  cases rest with
+  | nil => rfl
+  | cons p rest =>
+    obtain ⟨k', v'⟩ := p
+    simp only [kvSorted, Bool.and_eq_true] at h
+    exact h.2
+
+mutual
+theorem canon_wf : ∀ v : JV, v.wf = true → canon v = v
+  | .null, _ => rfl
+  | .bool _, _ => rfl
+  | .num _, _ => rfl
+  | .str _, _ => rfl
+  | .arr xs, h => by
+    simp only [JV.wf] at h
+    simp [canon, canonL_wf xs h]
+  | .obj kvs, h => by
+    simp only [JV.wf, Bool.and_eq_true] at h
+    simp [canon, canonM_wf kvs h.2 h.1 [] (by intro p hp; cases hp)]
+theorem canonL_wf : ∀ l : List JV, JV.wfList l = true → canonL l = l
+  | [], _ => rfl
+  | x :: xs, h => by
+    simp only [JV.wfList, Bool.and_eq_true] at h
+    simp [canonL, canon_wf x h.1, canonL_wf xs h.2]
+theorem canonM_wf : ∀ l : List (Bytes × JV), JV.wfKvs l = true → kvSorted l = true →
+    ∀ acc : List (Bytes × JV), (∀ p ∈ acc, ∀ q ∈ l, Bytes.cmp p.1 q.1 = .lt) → canonM acc l = acc ++ l
+  | [], _, _, acc, _ => by simp [canonM]
+  | (k, x) :: rest, h, hs, acc, hacc => by
+    simp only [JV.wfKvs, Bool.and_eq_true] at h
+    have hins : kvInsert k (canon x) acc = acc ++ [(k, x)] := by
+      rw [canon_wf x h.1]
+      exact kvInsert_append k x acc (fun p hp => hacc p hp (k, x) (by simp))
+    simp only [canonM, hins]
+    rw [canonM_wf rest h.2 (sorted_tail k x rest hs) (acc ++ [(k, x)]) ?_]
+    · simp
+    · intro p hp q hq
+      rcases List.mem_append.mp hp with hp | hp
+      · exact hacc p hp q (by simp [hq])
+      · simp only [List.mem_singleton] at hp
+        rw [hp]
+        exact sorted_head_lt k x rest hs q hq
+end
+
+mutual
+theorem nodup_wf : ∀ v : JV, v.wf = true → nodup v
+  | .null, _ => trivial
+  | .bool _, _ => trivial
+  | .num _, _ => trivial
+  | .str _, _ => trivial
+  | .arr xs, h => by
+    simp only [JV.wf] at h
+    simpa [nodup] using nodupL_wf xs h
+  | .obj kvs, h => by
+    simp only [JV.wf, Bool.and_eq_true] at h
+    simpa [nodup] using nodupM_wf kvs h.2 h.1
+theorem nodupL_wf : ∀ l : List JV, JV.wfList l = true → nodupL l
+  | [], _ => trivial
+  | x :: xs, h => by
+    simp only [JV.wfList, Bool.and_eq_true] at h
+    exact ⟨nodup_wf x h.1, nodupL_wf xs h.2⟩
+theorem nodupM_wf : ∀ l : List (Bytes × JV), JV.wfKvs l = true → kvSorted l = true → nodupM l
+  | [], _, _ => trivial
+  | (k, x) :: rest, h, hs => by
+    simp only [JV.wfKvs, Bool.and_eq_true] at h
+    refine ⟨?_, nodup_wf x h.1, nodupM_wf rest h.2 (sorted_tail k x rest hs)⟩
+    intro p hp heq
+    have hlt := sorted_head_lt k x rest hs p hp
+    rw [heq, cmp_refl] at hlt
+    cases hlt
+end
+
 end Gojq.Stream
